@@ -110,3 +110,13 @@ Proof.
   apply (C05_v1_pke_minimal_refuted toy2 toy2_laws key32 key32' r512z cn_z); [reflexivity|exact (proj2 cn_z_has_leading_zero)|].
   vm_compute. reflexivity.
 Qed.
+
+(* ---- the two satisfiability theorems: destructed, and the witness really has the non-degenerate property ---- *)
+Example C05_premises_satisfiable_nonvacuous : exists O, laws O.
+Proof. destruct C05_premises_satisfiable as (O & L). exists O. exact L. Qed.
+Example C05_sodium_premises_satisfiable_nonvacuous :
+  exists O, laws O /\ x_mul O n32 (x_of_seed O key32') <> zero32.
+Proof. destruct C05_sodium_premises_satisfiable as (O & L & H). exists O. split; [exact L|apply H]. Qed.
+(* the extra premise is a genuine restriction: the first toy oracle does not meet it *)
+Example C05_sodium_premises_satisfiable_nonvacuous_toy_fails : ~ (forall r xpk, x_mul toy r xpk <> zero32).
+Proof. intros H. apply (H [] []). vm_compute. reflexivity. Qed.
